@@ -110,7 +110,10 @@ Definition rule_okb (c : bcase) (frozen : list key) : bool :=
                                       && negb (memb (c_addr d) frozen))
                             (b_cands b)) pos
   && (Z.of_nat (length pos) <=? Z.max 0 (top_of c))
+  (* a candidate with a freeze RECORD at the time of the election (possibly written by this block's
+     missed-votes scan) is legitimately left out; everybody else competes *)
   && forallb (fun d => if (minp_of c <=? c_power d) && negb (memb (c_addr d) frozen)
+                          && negb (memb (c_addr d) (b_mal b))
                           && negb (existsb (fun u => N.eqb u.1 (c_pk d)) pos)
                        then (top_of c <=? Z.of_nat (length pos)) && forallb (fun u => c_power d <=? u.2) pos
                        else true) (b_cands b).
@@ -120,15 +123,19 @@ Definition rule_okb (c : bcase) (frozen : list key) : bool :=
 Definition rule_code (c : bcase) : Z := if rule_okb c (k_frozen c) then 0 else 2.
 
 (* monitor 3 (C10_converges on the implementation): after 5 blocks of unchanged inputs the set
-   that results from this block's updates is exactly the election.  0 = holds / not applicable;
+   that results from this block's updates is exactly the election computed from the records.  0 = holds / not applicable;
    1 = fails and some member of the set has no validator record (trigger
    C10.member_without_record); 2 = fails otherwise *)
 Definition member_without_recordb (c : bcase) : bool :=
   existsb (fun u => negb (existsb (fun d => N.eqb (c_addr d) u.1) (b_cands (k_in c)))) (k_next c).
 Definition conv_code (c : bcase) : Z :=
   if (k_quiet c <? 5) || negb (k_tm_ok c) then 0
-  else if upds_eqb (canon (k_next_after c)) (canon (positives (k_ups c))) then 0
-  else if member_without_recordb c then 1 else 2.
+  else
+    (* the election over the RECORDS (candidate table, options, frozen set); where ties make it
+       ambiguous, the implementation's own choice, whose validity the correspondence checks *)
+    let target := if tie_free c then pos_updates (model_election (k_in c)) else positives (k_ups c) in
+    if upds_eqb (canon (k_next_after c)) (canon target) then 0
+    else if member_without_recordb c then 1 else 2.
 
 (* monitor 4 (invariant behind C10_accepted since /repo 9246c8d): every record's address is the
    address of its consensus key and no two records share a key.  0 holds, 1 fails *)
